@@ -258,7 +258,53 @@ func checkSchedOutcome(s *out.Sink, sc schedScenario, sr *schedRun, schedule []i
 	}
 }
 
+// boxManySenders: more messages than any one sender may buffer, but from several senders each well within its own limit
+// of 100 per topic, are held for a topic before the local party's first send (a large committee and a late local party:
+// with reliable broadcast a dozen signers suffice). Every one of them is handed over exactly once at the first send.
+func boxManySenders(s *out.Sink) {
+	for _, cfg := range [][2]int{{4, 40}, {12, 12}, {3, 100}} {
+		senders, each := cfg[0], cfg[1]
+		rg := newBoxRig(3, 4)
+		id := 0
+		for k := 0; k < each; k++ {
+			for src := 1; src <= senders; src++ {
+				id++
+				rg.recv(uint16(src), 0, id)
+			}
+		}
+		ans := rg.send(0)
+		handed := map[int]int{}
+		for _, f := range strings.Fields(strings.Split(ans, "|")[0]) {
+			var x int
+			if n, _ := fmt.Sscanf(f, "h%d", &x); n == 1 {
+				handed[x]++
+			}
+		}
+		s.N++
+		s.Count("many-senders/run")
+		s.Distinct[fmt.Sprintf("many senders %dx%d", senders, each)] = struct{}{}
+		missing, dup := 0, 0
+		first := 0
+		for i := 1; i <= id; i++ {
+			switch {
+			case handed[i] == 0:
+				missing++
+				if first == 0 {
+					first = i
+				}
+			case handed[i] > 1:
+				dup++
+			}
+		}
+		if missing > 0 || dup > 0 {
+			s.Violate("C14", fmt.Sprintf("%d senders, %d messages each (every sender within its limit of 100 per topic) held for one topic before the first send: %d of the %d messages were never handed to the dispatcher (the first: message %d of sender %d), %d more than once", senders, each, missing, id, first, (first-1)%senders+1, dup),
+				fmt.Sprintf("box with limits 3 topics / 100 messages per sender and topic; %d rounds of one message from each of senders 1..%d on topic 0; then Send on topic 0", each, senders))
+		}
+	}
+}
+
 func runBoxSched(r *prng.R, s *out.Sink, tier string) {
+	boxManySenders(s)
 	// per scenario: depth-first enumeration of all schedules up to `limit`; a scenario with more schedules than that is
 	// not exhausted by a depth-first prefix (which only varies the end of the schedule), so `extra` uniformly random
 	// schedules follow
